@@ -245,6 +245,28 @@ def check_history(arg):
     return fails, 1
 
 
+def check_alias(arg):
+    """the list handed out by ipnets() is the caller's: editing it changes nothing for this object, its copies, or equal objects built later"""
+    import cisco_acl
+    from cisco_acl.wildcard import Wildcard
+    line, how = arg
+    fails = []
+    w = Wildcard(line)
+    want = [str(n) for n in w.ipnets()]
+    got_list = w.ipnets() if how != "address" else cisco_acl.Address(line, platform="nxos").ipnets()
+    got_list.clear() if how == "clear" else got_list.append(got_list[0] if got_list else None)
+    views = {"same object": w.ipnets(), "copy": w.copy().ipnets(), "new equal object": Wildcard(line).ipnets(),
+             "address": cisco_acl.Address(line, platform="nxos").ipnets()}
+    for name, v in views.items():
+        if [str(n) for n in v] != want:
+            fails.append(dict(key="bounded/Wildcard.ipnets:aliased-result", what=f"after the caller edited the list returned by ipnets() of {line!r} ({how}), ipnets() of the {name} "
+                                                                                f"has {len(v)} networks instead of {len(want)}", inputs=dict(line=line, how=how),
+                              cmd=("import sys; sys.path.insert(0, 'props'); import C05\n"
+                                   f"fails, _ = C05.check_alias({arg!r})\nprint([f['what'] for f in fails]); sys.exit(1 if fails else 0)\n")))
+            break
+    return fails, 1
+
+
 def replay_line_fset(model, ob):
     """native search for a reassignment history on which a derived value does not describe the current line"""
     pool = ["10.0.0.0 0.0.1.3", "10.0.0.0 0.0.0.255", "10.0.1.0 0.0.0.255", "20.0.0.0 0.0.1.3", "10.0.0.0 0.0.3.3", "limit=0", "limit=1"]
@@ -317,6 +339,16 @@ def main(chk):
     chk.add_bounded("histories of line reassignments and limit changes on one Wildcard object (and, for a third of them, on an Address / AddressAg object that owns one) interleaved with queries (limit 4; includes rejected lines)", len(hist), len(hist),
                     f"all sequences of 2..3 lines over a pool of {len(pool)} (two of them exceed the limit), queried after every step or only at the end",
                     viol, time.time() - t0, [list(hist[5][0])], exhaustive=True)
+    t0 = time.time()
+    acases = [(l, h) for l in ("10.0.0.0 0.0.1.3", "10.0.0.0 0.0.0.255", "10.0.0.0 0.255.0.255", "1.2.3.4 0.0.0.0") for h in ("clear", "append", "address")]
+    res = pmap(check_alias, acases)
+    viol = 0
+    for fails, _ in res:
+        for f in fails:
+            viol += 1
+            chk.finding(f["key"], f["what"], inputs=f["inputs"], cmd=f["cmd"], key=f["key"])
+    chk.add_bounded("the list returned by ipnets() is a copy: editing it changes no later answer (same object, copy, new equal object, address)", len(acases), len(acases),
+                    "4 masks x 3 ways of editing the returned list", viol, time.time() - t0, [list(acases[0])], exhaustive=True)
     chk.assumptions += [
         "assumed contracts on dependencies (audited, not proved): ipaddress.IPv4Address text codec (IP_OK/IP_PARSE), IPv4Network((addr, len)), str.split(), "
         "itertools.product((0,1), repeat=k) = all k-tuples once in lexicographic order (TBIT), functools.lru_cache = first result per key",
